@@ -44,6 +44,7 @@ type collector struct {
 	mu      sync.Mutex
 	recv    []string
 	regDone int64 // logical time after AddListener returned (0 = initial listener)
+	react   atomic.Value // func(): what this listener does on every notification (may call back into the wallet)
 }
 
 func (c *collector) run(stop <-chan struct{}, last *atomic.Int64) {
@@ -54,6 +55,9 @@ func (c *collector) run(stop <-chan struct{}, last *atomic.Int64) {
 			c.recv = append(c.recv, hex.EncodeToString(a[:]))
 			c.mu.Unlock()
 			last.Store(time.Now().UnixNano())
+			if f, ok := c.react.Load().(func()); ok {
+				f() // a listener that queries the wallet when notified: must never deadlock with the notifier
+			}
 		case <-stop:
 			return
 		}
@@ -112,6 +116,10 @@ func runStress(cfg stressCfg, pool []*keyT) *stressResult {
 	if err != nil {
 		panic(err)
 	}
+	reaction := func() { _, _ = w.GetAccounts(ctx) }
+	colMu.Lock()
+	cols[0].react.Store(reaction)
+	colMu.Unlock()
 	if err := w.Initialize(ctx); err != nil {
 		fail("Initialize failed on an existing directory", err.Error())
 		return res
@@ -200,6 +208,9 @@ func runStress(cfg stressCfg, pool []*keyT) *stressResult {
 					hit("getAccounts")
 				case k < 16:
 					c := newCollector(r.Intn(3))
+					if r.Bool() {
+						c.react.Store(reaction)
+					}
 					w.AddListener(c.ch)
 					atomic.StoreInt64(&c.regDone, clock.Add(1))
 					hit("addListener")
@@ -249,7 +260,7 @@ func runStress(cfg stressCfg, pool []*keyT) *stressResult {
 	go func() { wg.Wait(); close(workersDone) }()
 	select {
 	case <-workersDone:
-	case <-time.After(60 * time.Second):
+	case <-time.After(patience(60 * time.Second)):
 		fail("deadlock: worker goroutines did not finish within 60 s", nil)
 		return res
 	}
@@ -274,7 +285,7 @@ func runStress(cfg stressCfg, pool []*keyT) *stressResult {
 		return m, dups
 	}
 	if cfg.Listener && !cfg.CloseEarly {
-		deadline := time.Now().Add(15 * time.Second)
+		deadline := time.Now().Add(patience(15 * time.Second))
 		for time.Now().Before(deadline) {
 			m, _ := accSet()
 			ok := true
@@ -296,6 +307,7 @@ func runStress(cfg stressCfg, pool []*keyT) *stressResult {
 			}
 		}
 		if len(missing) > 0 {
+			slowMode.Store(true)
 			sort.Strings(missing)
 			fail("no-convergence: with the file-system listener running, created key files never appeared in GetAccounts", missing)
 		}
@@ -349,7 +361,7 @@ func runStress(cfg stressCfg, pool []*keyT) *stressResult {
 		}
 		return n, miss
 	}
-	deadline := time.Now().Add(15 * time.Second)
+	deadline := time.Now().Add(patience(15 * time.Second))
 	for time.Now().Before(deadline) {
 		if _, miss := mustHave(); len(miss) == 0 {
 			break
@@ -366,6 +378,7 @@ func runStress(cfg stressCfg, pool []*keyT) *stressResult {
 	n, miss := mustHave()
 	res.mustPairs = n
 	if len(miss) > 0 {
+		slowMode.Store(true)
 		sort.Strings(miss)
 		if len(miss) > 8 {
 			miss = miss[:8]
